@@ -201,6 +201,12 @@ def check(run: Run) -> None:
         R.share(run, "C08.g", c15, ["C15.c"])
         R.share(run, "C08.g", c02, ["C02.c"])
 
+    with run.obligation("C08.h", "K2", "a feedback loop inside a switch_ branch keeps its state while the key is unchanged: the running branch is rebuilt only on a key CHANGE, which "
+                        "needs the switch to remember the key of the branch it runs (shared with C12.n: the key is recorded after the old branch was retired) - a rebuilt "
+                        "branch loses the in-flight feedback value and delivers the declared initial value a second time"):
+        from . import c12
+        R.share(run, "C08.h", c12, ["C12.n"])
+
 
 VARIANTS = [
     {"id": "b-sink-requires-all-valid", "expect": "C08.b", "edits": [{"file": FB, "find": "        node_schema.valid_inputs  = std::vector<std::size_t>{0};", "replace": "        node_schema.valid_inputs  = std::vector<std::size_t>{0};\n        node_schema.all_valid_inputs = std::vector<std::size_t>{0};"}]},
